@@ -52,7 +52,7 @@ func (C07) Events(env world.Env, mm mc.Model) []string {
 			}
 		}
 		evs = append(evs, "PostOnce:U1:400:1", "Post:U1:max:1") // the largest size stateless validation accepts
-		evs = append(evs, "PostNegExp:U1:400:1")               // Expires = -1 passes stateless validation
+		evs = append(evs, "PostNegExp:U1:400:1")                // Expires = -1 passes stateless validation
 	}
 	for _, id := range m.Files {
 		fp := strings.Split(id, "|")
@@ -92,7 +92,7 @@ func c07Snapshot(w *world.World, ctx sdk.Context) c07Snap {
 		r, err := k.AllFilesByOwner(sdk.WrapSDKContext(ctx), &storagetypes.QueryAllFilesByOwner{Owner: a})
 		if err == nil {
 			for _, f := range r.Files {
-				if f.Expires == 0 {
+				if f.Expires <= 0 {
 					s.footprint[u] += f.FileSize * f.MaxProofs
 				}
 			}
@@ -146,7 +146,7 @@ func (C07) Apply(env world.Env, mm mc.Model, ev string) mc.Step {
 		}
 		// a post at an existing key (same content, owner and block) replaces that file, whose footprint is released
 		var replaced int64
-		if old, ok := getFile(w, env.Ctx(), f.merkle, w.A(u).Bech, h); ok && old.Expires == 0 {
+		if old, ok := getFile(w, env.Ctx(), f.merkle, w.A(u).Bech, h); ok && old.Expires <= 0 {
 			replaced = old.FileSize * old.MaxProofs
 		}
 		res := env.Deliver(msg)
